@@ -40,7 +40,9 @@ Inductive sbld :=
 | SbStr (tg : nat) (e : expr)                (* Command::stream_from_shell(op) *)
 | SbMap (s : sbld) (n : nat)
 | SbThenReq (s : sbld) (tg : nat)            (* stream.then_request: one request per item, in item order *)
-| SbOfReq (r : rbld) (tg : nat).             (* request.then_stream(|v| stream(op tg v)) *)
+| SbOfReq (r : rbld) (tg : nat)              (* request.then_stream(|v| stream(op tg v)) *)
+| SbThenStr (s : sbld) (tg : nat).           (* stream.then_stream(|v| stream(op tg v)): one inner stream per item, all
+                                                inner streams merged as their items arrive (flatten_unordered) *)
 
 Inductive cmd :=
 | CNew (main : task) (extra : list task)      (* Command::new(main) followed by cmd.spawn(extra_i) *)
@@ -91,6 +93,61 @@ Fixpoint task_of_sb (s : sbld) (body : expr -> task) : task :=
   | SbMap s' n => task_of_sb s' (fun v => body (Plus v (K n)))
   | SbThenReq s' tg => task_of_sb s' (fun v => TReq tg v 21 (body (V 21)))
   | SbOfReq r tg => task_of_rb r (fun v => TForEach tg v 20 (body (V 20)) TRet)
+  (* MEANING of then_stream on a stream when nothing downstream blocks (map / then_stream / then_send only):
+     every item opens one more loop that runs beside the others; the whole is finished when all are.
+     The code does this inside ONE task with futures' flatten_unordered, which the runtime model Rt.v does
+     not model: programs containing SbThenStr are compared with the reference semantics only (sb_flat). *)
+  | SbThenStr s' tg => task_of_sb s' (fun v => TSpawn (TForEach tg v 20 (body (V 20)) TRet) 22 TRet)
+  end.
+Fixpoint sb_flat (s : sbld) : bool :=
+  match s with
+  | SbStr _ _ | SbOfReq _ _ => false
+  | SbMap s' _ | SbThenReq s' _ => sb_flat s'
+  | SbThenStr _ _ => true
+  end.
+(* then_request after then_stream pulls the merged stream one item at a time: outside what the meaning above covers *)
+Fixpoint sb_flat_ok (s : sbld) : bool :=
+  match s with
+  | SbStr _ _ | SbOfReq _ _ => true
+  | SbMap s' _ | SbThenStr s' _ => sb_flat_ok s'
+  | SbThenReq s' _ => negb (sb_flat s') && sb_flat_ok s'
+  end.
+
+(* does the command contain a then_stream on a stream (compared with the reference semantics only)? *)
+Fixpoint cmd_flat (c : cmd) : bool :=
+  match c with
+  | CNew _ _ | CSendR _ _ => false
+  | CThen a b | CAnd a b => cmd_flat a || cmd_flat b
+  | CAll cs => existsb cmd_flat cs
+  | CMapEff _ c' | CMapEv _ c' | CIdEff c' | CIdEv c' | CInto c' | CAbortable _ c' => cmd_flat c'
+  | CSendS s _ => sb_flat s
+  end.
+Fixpoint cmd_flat_ok (c : cmd) : bool :=
+  match c with
+  | CNew _ _ | CSendR _ _ => true
+  | CThen a b | CAnd a b => cmd_flat_ok a && cmd_flat_ok b
+  | CAll cs => forallb cmd_flat_ok cs
+  | CMapEff _ c' | CMapEv _ c' | CIdEff c' | CIdEv c' | CInto c' | CAbortable _ c' => cmd_flat_ok c'
+  | CSendS s _ => sb_flat_ok s
+  end.
+
+(* the one-shot requests made inside a builder chain that contains a then_stream on a stream *)
+Fixpoint rb_tags (r : rbld) : list nat :=
+  match r with RbReq tg _ => [tg] | RbMap r' _ => rb_tags r' | RbThenReq r' tg => tg :: rb_tags r' end.
+Fixpoint sb_once_tags (s : sbld) : list nat :=
+  match s with
+  | SbStr _ _ => []
+  | SbMap s' _ | SbThenStr s' _ => sb_once_tags s'
+  | SbThenReq s' tg => tg :: sb_once_tags s'
+  | SbOfReq r _ => rb_tags r
+  end.
+Fixpoint cmd_flat_once_tags (c : cmd) : list nat :=
+  match c with
+  | CNew _ _ | CSendR _ _ => []
+  | CThen a b | CAnd a b => cmd_flat_once_tags a ++ cmd_flat_once_tags b
+  | CAll cs => flat_map cmd_flat_once_tags cs
+  | CMapEff _ c' | CMapEv _ c' | CIdEff c' | CIdEv c' | CInto c' | CAbortable _ c' => cmd_flat_once_tags c'
+  | CSendS s _ => if sb_flat s then sb_once_tags s else []
   end.
 
 (* compile: the combinators as the code defines them (command/mod.rs) *)
